@@ -19,7 +19,7 @@ EXPLANATION = (
     'discarded.'
 )
 ASSUMPTIONS = ["Task.cancel() delivers CancelledError at the task's current await", "asyncio.current_task() identifies the caller so close() does not cancel itself"]
-FLOORS = {"C15.R1": 3, "C15.R2": 4, "C15.R3": 14, "C15.R4": 1, "C15.R5": 9, "C15.R6": 1, "C15.R7": 1, "C15.R8": 1}
+FLOORS = {"C15.R1": 3, "C15.R2": 4, "C15.R3": 14, "C15.R4": 1, "C15.R5": 9, "C15.R6": 1, "C15.R7": 1, "C15.R8": 1, "C15.R9": 1}
 
 
 def run(ctx):
@@ -40,6 +40,8 @@ def run(ctx):
 
     from . import c07, c14
 
+    reuse(ctx, "C15.R9", [c07.r11], "every task the socket starts is kept in _background_tasks until it is done, which is what close() cancels (C07.R11)",
+          keep=lambda o: "tracked" in o.construct or "released" in o.construct or "creates" in o.construct or o.verdict != "HOLDS")
     reuse(ctx, "C15.R7", [c07.r2], "close() cannot fail half-way: _disconnect closes the writer, never raises and clears the connection state (C07.R2)")
     reuse(ctx, "C15.R8", [c14.r3], "after a later init() the AirTouch 4 group poll runs again: reaching CONNECTED always creates the task (C14.R3)",
           keep=lambda o: "poll-task" in o.construct or "task" in o.construct or o.verdict != "HOLDS")
@@ -243,9 +245,9 @@ def r3(ctx):
         if hb and cs:
             ok = all(g.dominates(h.id, c.id) for h in hb for c in cs)
             ctx.check(ok, R, f"{clsname}.shutdown:heartbeat-stopped-before-close", m, cs[0].ast, "the heartbeat is stopped before the socket is closed (a tick during close() would send on a closed socket and abort shutdown)", "socket closed first")
-        st, rest = steps["state-CLOSED"], hb + cs
+        st, rest = steps["state-CLOSED"], [n for n in g.nodes if n.awaits]
         if st and rest:
-            ok = all(g.dominates(s.id, r.id) for s in st for r in rest)
+            ok = all(any(g.dominates(s.id, r.id) for s in st) for r in rest)
             ctx.check(ok, R, f"{clsname}.shutdown:state-first", m, st[0].ast, "state = CLOSED before anything is awaited (late frames are ignored)", "awaits happen while the state machine is still live")
 
 
